@@ -3,7 +3,7 @@ from props import _rtb
 LEVEL = 'exploration'
 PID = 'C06'
 SCRIPT = 'b_c06.py'
-SPEC = {'quick': {'designs': 150, 'styles': 3, 'files': {'verilog': 27000}, 'limit': 20, 'file_limit': 60},
+SPEC = {'quick': {'designs': 150, 'styles': 4, 'files': {'verilog': 70000}, 'limit': 20, 'file_limit': 60},
         'thorough': {'designs': 2500, 'styles': 2, 'files': {'verilog': 600000}, 'limit': 20, 'file_limit': 400}}
 RULE = ('case = (seeded abstract design, style) rendered by the independent structural-Verilog writer (native/render_verilog.py) and '
         'read by sdn.parse, or one bundled .v archive; distinct = sha1 of AD+style / archive name; non-trivial = at least two instances, '
@@ -16,9 +16,10 @@ def run(rep, tier, seed):
                        'implied net, bit k of every connection expression joined to bit k of the port (named and positional maps), black boxes '
                        'for never-declared modules, assigns as joined bit pairs, 1\'b0/1\'b1 as \\<const0>/\\<const1>, parameters, attributes, top; '
                        'Inv I1-I4 and self-containment; bundled examples parse + Inv')
-    rep.assumptions.append('tier B: everything outside the stated bounds is unexplored; not generated: header port aliases .p({..}) (covered by '
-                           'bundled b13.v only), `input wire` in ANSI headers, positional maps on never-declared modules, empty positional slots')
-    _rtb.run(rep, PID, SCRIPT, tier, seed, SPEC, RULE)
+    rep.assumptions.append('tier B: everything outside the stated bounds is unexplored; not generated: header port aliases other than '
+                           'single-bit breakouts .p({a, b}), `input wire` in ANSI headers, positional maps on never-declared modules, '
+                           'empty positional slots, ascending ranges [lsb:msb]')
+    _rtb.run(rep, PID, SCRIPT, tier, seed, SPEC, RULE, gen_bounds=_rtb.HIER_BOUNDS)
 
 
 def replay(path):
